@@ -132,9 +132,17 @@ def gen_module(rng, helper_name):
                 out += klass(indent)
             else:
                 pad = ' ' * indent
-                kind = rng.choice(['if', 'try', 'with', 'mainelse', 'for', 'while', 'match', 'tryelse', 'notmain', 'notmain'])
+                kind = rng.choice(['if', 'try', 'with', 'mainelse', 'for', 'while', 'match', 'tryelse', 'notmain', 'notmain', 'tryredef'])
                 if kind == 'if':
                     out += [pad + 'if True:'] + block(indent + 4, depth + 1)
+                elif kind == 'tryredef':
+                    # the optional-accelerator idiom: a definition in the try body, an import that fails behind it, the fallback of the SAME
+                    # name in the handler - the handler's definition is the live one
+                    k = nid()
+                    out += [pad + 'try:', pad + '    def same%d():' % k, pad + '        """', pad + '        >>> print("fast path %d")' % k, pad + '        """',
+                            pad + '    import xdverif_c16_missing_backend_%d' % k,
+                            pad + 'except ImportError:', pad + '    def same%d():' % k, pad + '        """', pad + '        >>> print("fallback %d")' % k, pad + '        fallback %d' % k, pad + '        """',
+                            pad + '    def only_fallback%d():' % k, pad + '        """', pad + '        >>> print(%d)' % k, pad + '        """']
                 elif kind == 'notmain':
                     # the negated guard ("imported, not run as a script") and look-alikes of the script guard: their bodies DO run on import
                     test = rng.choice(["__name__ != '__main__'", "'__main__' != __name__", "__name__ not in ('__main__',)", "__name__ >= ''", "not __name__ == '__main__'"])
